@@ -1,7 +1,7 @@
 CFG = {
     "group": "c08",
     "level": "proof",
-    "coq_targets": ["Properties/C08.vo"],
+    "coq_targets": ["Properties/C08.vo", 'ParamsTie.vo'],
     "correspondence": "outcome of fst::raw::Fst::new + len/is_empty/size/fst_type/as_bytes + verify() (error kind and payload, stored and computed checksum) = FstV.Open.fst_new/verify over FstV.Crc.crc32c_slice16 with the tables of build.rs; the CRC the implementation computes (read off ChecksumMismatch{got}) and the footer of built FSTs = masked bitwise CRC-32C FstV.Crc.spec_masked_crc32c",
     "rule": "four families. crc: a version-3 wrapper (non-zero root address, checksum field 0) around arbitrary content so that verify() exposes the implementation's CRC as ChecksumMismatch{got}; every checksummed length 32..320 (all residues mod 16, 2..20 fast-path blocks) x {random, all 0x00, all 0xFF} plus boundary and random lengths up to 4096; S = got vs masked bitwise CRC of all bytes but the last four. bytes: FSTs built from random sorted key/value lists (0..120 keys, alphabets 2/3/26/256, boundary values) by raw::Builder into memory, into a sink accepting 1..8/15/16/17/64 bytes per call with periodic Interrupted, through a BufWriter, and by MapBuilder/SetBuilder; S = (verify() is Ok, last four bytes LE) vs ('verified', masked bitwise CRC of the preceding bytes). corrupt: every position x all 255 other values of the 3 smallest built FSTs (<= 64 bytes), every position x {bit flip, +1, random; header/footer positions also 0,1,2,3,4,0xFF} of larger ones; burst: 2..4 consecutive bytes replaced, a quarter of them in the last 10 bytes; S = OK/notok after checking on both sides that the unmodified file opens and verifies, spec says notok. M = exact outcome text (error kind + payload) on the modified file. Non-trivial = everything but wrappers with an empty body; distinct = distinct case lines.",
     "modelled": [
